@@ -85,9 +85,10 @@ def run(ctx, rep):
         if vf in f.fns:
             tbf = ev.tb(vf)
             for i, n in tbf.walk():
-                if n["k"] != "If":
-                    continue
-                ci, cn = tbf.e(n["cond"])
+                # a comparison of the two sides wherever it stands (an `if` condition, `(a != b).then(..)`, a match guard)
+                if n["k"] == "If":
+                    continue    # its condition is itself visited as a node
+                ci, cn = i, n
                 l = r = None
                 if cn["k"] == "Binary" and cn["op"] == "Ne":
                     l, r = field_of_expr(tbf, cn["l"], {"self", "other"}), field_of_expr(tbf, cn["r"], {"self", "other"})
@@ -131,6 +132,13 @@ def run(ctx, rep):
                             delegated.add(an["name"])
                 if fn == vf:
                     uses_validate_fields = True
+                    # `other` handed over as it is (no rebuilt literal needed): every field reaches the comparison
+                    if len(n["args"]) == 2:
+                        oi, on = tb.e(n["args"][1])
+                        while on["k"] in ("Borrow", "Deref"):
+                            oi, on = tb.e(on["e"])
+                        if on["k"] == "Var" and on.get("name") == "other":
+                            copied.update(fields)
         for fld in fields:
             if (s, fld) in EXEMPT:
                 rep.ok("R15.1", "R15.1|%s.%s" % (name, fld), "exempt: " + EXEMPT[(s, fld)], vo)
